@@ -431,7 +431,7 @@ func (h *History) step(t *rapid.T) {
 	m := h.spec.Mix
 	ws := []int{m.InsertNew, m.Overwrite, m.DeletePresent, m.DeleteAbsent, m.SearchPresent, m.SearchAbsent,
 		m.Range, m.Prefix, m.TopBottom, m.Extremes, m.Scan, m.Size, m.Iter, m.BulkInsert, m.BulkDelete, m.DeleteAll, m.GC, m.Audit}
-	if !s.kind.HasRange() {
+	if !s.kind.HasRange() && !(h.cfg.CallUndefined && s.kind.Family() == "collation") {
 		ws[6] = 0
 	}
 	if !s.kind.HasPrefix() {
@@ -525,7 +525,7 @@ func (h *History) iterOp(t *rapid.T, ti int) {
 	if s.kind.HasPrefix() {
 		methods = append(methods, "prefix", "prefix")
 	}
-	if s.kind.HasRange() {
+	if s.kind.HasRange() || s.kind.Family() == "collation" {
 		methods = append(methods, "range", "range")
 	}
 	op := Op{T: ti, Op: "iter", M: pick(t, methods, "im")}
